@@ -88,6 +88,9 @@ def atom_token(o, _depth=0):
                           types.WrapperDescriptorType)):
             return b"B" + getattr(o, "__name__", repr(o)).encode()
         return type(o).__name__.encode() + b":" + repr(o).encode()
+    if type(o).__name__ == "_ArrayFunctionDispatcher" and (type(o).__module__ or "").startswith("numpy"):
+        # numpy's public functions (np.median, the default `reference` of PointsPerIntervalSlicer): library callables
+        return b"B" + (getattr(o, "__module__", "") or "").encode() + b"." + getattr(o, "__qualname__", repr(o)).encode()
     if (type(o).__module__ or "").startswith("scipy.stats.") and hasattr(o, "_parse_args") and hasattr(o, "name"):
         # scipy.stats distribution generators (sts.gamma, ...): library singletons a ScipyDistribution refers to
         return b"S" + type(o).__module__.encode() + b"." + type(o).__qualname__.encode() + b":" + str(o.name).encode()
@@ -2098,6 +2101,11 @@ def process(ck, all_records):
             ck.count("seq_len=%d" % len(c["ops"]))
             ck.count("models=" + "+".join(sorted(m["kind"] + str(m.get("k", "")) for m in c["models"])))
             ck.count("ops_executed_without_exception", r["n_ok"])
+            for m in c["models"]:
+                if m["kind"] == "custom":
+                    ck.count("custom_slicer=" + m.get("slicer", "number"))
+                    for d in m["dims"]:
+                        ck.count("custom_family=%s(%s)" % (d["family"], "unconditional" if d["cond"] is None else "template of a conditional"))
             ck.count("max_objects", 0)
             ck.dist["max_objects"] = max(ck.dist.get("max_objects", 0), r["n_objects"])
         elif r["kind"] == "late":
